@@ -24,10 +24,11 @@ structure NinjaRule where
   deriving Repr, BEq, DecidableEq
 
 /-- `impl Hash for NinjaRule` (+ `get_hash(None)`): name, command, description, deps (if GCC),
-    pool (if set), rspfile, rspfile_content, depfile again. `always` and `export` are not hashed. -/
+    pool (if set), `always` (if set), rspfile, rspfile_content, depfile again. `export` is not hashed
+    (it is already part of the command). -/
 def NinjaRule.hash (r : NinjaRule) : String :=
   hashTok "rule" (enc r.name ++ "|" ++ enc r.command ++ "|" ++ optS r.description ++ "|" ++ optS r.deps ++ "|"
-    ++ optS r.pool ++ "|" ++ optS r.rspfile ++ "|" ++ optS r.rspfileContent)
+    ++ optS r.pool ++ "|" ++ optS r.rspfile ++ "|" ++ optS r.rspfileContent ++ (if r.always then "|always" else ""))
 
 /-- `NinjaRule::named` -/
 def NinjaRule.named (r : NinjaRule) : NinjaRule := { r with name := r.name ++ "_" ++ r.hash }
